@@ -352,16 +352,35 @@ Internal ==
                               \/ it.pc = "join" /\ it.n = 0
 MayRespond == ~Eager \/ ~Internal
 
-Next == \/ \E it \in DOMAIN items :
-             \/ StartFH(it) \/ StartH1(it) \/ StartFU(it) \/ StartReq(it) \/ StartDL(it) \/ StartGET(it) \/ StartNB(it)
-             \/ WakeH(it) \/ WakeS(it)
-             \/ JoinBlocks(it)
-             \/ /\ MayRespond
-                /\ \/ RespH1(it) \/ RespET(it) \/ RespER(it) \/ RespII(it) \/ RespGET(it) \/ RespIP(it) \/ RespIE(it)
-                   \/ RespUBMore(it)
-                   \/ (it.k = "UB" /\ it.pc = "r1" /\ \E ord \in Orderings(UBFresh(it)) : RespUBFinal(it, ord))
-                   \/ (it.k = "NB" /\ it.pc = "ping" /\ RespNB(it, <<>>))
-                   \/ (it.k = "NB" /\ it.pc = "r1" /\ \E o \in Orderings(it.s) : RespNB(it, SplitBlocks(o, L)))
+\* one named action per kind of step (TLC reports coverage per action)
+DoStartFH  == \E it \in DOMAIN items : StartFH(it)
+DoStartH1  == \E it \in DOMAIN items : StartH1(it)
+DoStartFU  == \E it \in DOMAIN items : StartFU(it)
+DoStartReq == \E it \in DOMAIN items : StartReq(it)
+DoStartDL  == \E it \in DOMAIN items : StartDL(it)
+DoStartGET == \E it \in DOMAIN items : StartGET(it)
+DoStartNB  == \E it \in DOMAIN items : StartNB(it)
+DoWakeH    == \E it \in DOMAIN items : WakeH(it)
+DoWakeS    == \E it \in DOMAIN items : WakeS(it)
+DoJoinBlocks == \E it \in DOMAIN items : JoinBlocks(it)
+DoRespH1   == MayRespond /\ \E it \in DOMAIN items : RespH1(it)
+DoRespET   == MayRespond /\ \E it \in DOMAIN items : RespET(it)
+DoRespER   == MayRespond /\ \E it \in DOMAIN items : RespER(it)
+DoRespII   == MayRespond /\ \E it \in DOMAIN items : RespII(it)
+DoRespGET  == MayRespond /\ \E it \in DOMAIN items : RespGET(it)
+DoRespIP   == MayRespond /\ \E it \in DOMAIN items : RespIP(it)
+DoRespIE   == MayRespond /\ \E it \in DOMAIN items : RespIE(it)
+DoRespUBMore  == MayRespond /\ \E it \in DOMAIN items : RespUBMore(it)
+DoRespUBFinal == MayRespond /\ \E it \in DOMAIN items :
+                   it.k = "UB" /\ it.pc = "r1" /\ \E ord \in Orderings(UBFresh(it)) : RespUBFinal(it, ord)
+DoRespNBPing  == MayRespond /\ \E it \in DOMAIN items : it.k = "NB" /\ it.pc = "ping" /\ RespNB(it, <<>>)
+DoRespNB      == MayRespond /\ \E it \in DOMAIN items :
+                   it.k = "NB" /\ it.pc = "r1" /\ \E o \in Orderings(it.s) : RespNB(it, SplitBlocks(o, L))
+
+Next == \/ DoStartFH \/ DoStartH1 \/ DoStartFU \/ DoStartReq \/ DoStartDL \/ DoStartGET \/ DoStartNB
+        \/ DoWakeH \/ DoWakeS \/ DoJoinBlocks
+        \/ DoRespH1 \/ DoRespET \/ DoRespER \/ DoRespII \/ DoRespGET \/ DoRespIP \/ DoRespIE
+        \/ DoRespUBMore \/ DoRespUBFinal \/ DoRespNBPing \/ DoRespNB
         \/ Dispatch
         \/ Join
         \/ Finished
